@@ -22,7 +22,7 @@ func withCap(b []byte, extra int) []byte {
 func runCase2(f []string) (string, bool) {
 	switch f[0] {
 	case "compat":
-		in := unhex(f[1])
+		in := unhexWin(f[1])
 		keep := append([]byte{}, in...)
 		out := rjson.StdLibCompatibleString(string(in))
 		if !bytes.Equal(in, keep) {
@@ -30,7 +30,7 @@ func runCase2(f []string) (string, bool) {
 		}
 		return hx([]byte(out)), true
 	case "compatb":
-		in, buf := unhex(f[1]), unhex(f[2])
+		in, buf := unhexWin(f[1]), unhex(f[2])
 		extra, _ := strconv.Atoi(f[3])
 		keep := append([]byte{}, in...)
 		b := withCap(buf, extra)
@@ -135,7 +135,7 @@ func runHist(f []string) string {
 	var outs []string
 	for _, c := range f[2:] {
 		parts := strings.Split(c, ":")
-		op, data := parts[0], unhex(parts[1])
+		op, data := parts[0], unhexWin(parts[1])
 		switch op {
 		case "skip":
 			p, err := rjson.SkipValue(data, buf)
@@ -275,24 +275,24 @@ func refContent(d []byte, quoted bool) ([]byte, int, bool) {
 func oracleCase2(f []string) (string, bool) {
 	switch f[0] {
 	case "compat":
-		return hx(sanitize(unhex(f[1]))), true
+		return hx(sanitize(unhexWin(f[1]))), true
 	case "compatb":
-		return hx(append(unhex(f[2]), sanitize(unhex(f[1]))...)), true
+		return hx(append(unhex(f[2]), sanitize(unhexWin(f[1]))...)), true
 	case "rsb":
-		v, p, ok := refString(unhex(f[1]))
+		v, p, ok := refString(unhexWin(f[1]))
 		if !ok {
 			return "err", true
 		}
 		return fmt.Sprintf("ok %d %s", p, hx(append(unhex(f[2]), v...))), true
 	case "rs":
-		v, p, ok := refString(unhex(f[1]))
+		v, p, ok := refString(unhexWin(f[1]))
 		if !ok {
 			return "err", true
 		}
 		return fmt.Sprintf("ok %d %s", p, hx(v)), true
 	case "usc":
 		// C06 states the standalone unescaper only for the content of a well-formed token
-		d := unhex(f[1])
+		d := unhexWin(f[1])
 		v, n, ok := refContent(d, false)
 		if !ok {
 			return "-", true
@@ -380,7 +380,7 @@ func runStrHist(f []string) string {
 	target := "initial-target"
 	for _, c := range f[2:] {
 		parts := strings.Split(c, ":")
-		data := unhex(parts[1])
+		data := unhexWin(parts[1])
 		switch parts[0] {
 		case "rs":
 			v, p, err := rjson.ReadString(data, bufp)
@@ -469,7 +469,7 @@ func (h *recH) HandleArrayValue(d []byte) (int, error)     { return h.value(d) }
 func (h *recH) HandleObjectValue(k, d []byte) (int, error) { return h.value(d) }
 
 func runHrec(f []string) string {
-	d := unhex(f[1])
+	d := unhexWin(f[1])
 	h := &recH{}
 	if f[2] != "nobuf" {
 		h.buf = &rjson.Buffer{}
